@@ -415,7 +415,11 @@ def write_output(m, path, nout=None, max_level_written=None):
                         son = (rng.random_sample((n, T)) < 0.3).astype(np.int32) * 5
                     else:
                         cen = lv.centre[idx]
-                        son = lv.refined[idx].astype(np.int32) * (np.arange(n)[:, None] * T + np.arange(T)[None, :] + 1)
+                        son = lv.refined[idx].astype(np.int64) * (np.arange(n)[:, None] * T + np.arange(T)[None, :] + 1)
+                        if case.get("big_son", True):
+                            # grid indices run up to ncoarse + ngridmax * 2**ndim in real outputs: use the int32 range
+                            son = np.where(son > 0, son + (2 ** 31 - 1 - n * T - 2 if (l + dom) % 2 else 70000), 0)
+                        son = son.astype(np.int32)
                     _ints(f, np.arange(n) + 1)          # ind_grid
                     _ints(f, np.arange(n) + 2)          # next
                     _ints(f, np.arange(n))              # prev
